@@ -252,6 +252,40 @@ func restartScenario(sc Scenario, dir string) ([]verif.Event, *RunResult) {
 	}
 	r.consMu.Unlock()
 	r.wg.Wait()
+	// ---- in a third of the runs: one or two more restart cycles in between, with nobody publishing or consuming. Every one
+	// must come up, keep every topic / channel, and hold exactly as many messages per channel as the one before
+	// (topic backlog + channel backlog; what was in flight or deferred at a shutdown is queued after it)
+	var prevTotals map[string]int64
+	if cyc := rand.New(rand.NewSource(sc.Seed*13 + 5)).Intn(6); cyc < 2 && forcedVariant == "" {
+		res.Scenario += fmt.Sprintf(" +%d idle cycles", cyc+1)
+		for k := 0; k <= cyc; k++ {
+			hlib.Emit("HMidRestart", "k", k)
+			ndm, err := startNode(dir, opts)
+			if err != nil {
+				r.failf("[C05] nsqd does not start again on the data path after graceful shutdown number %d: %v", k+1, err)
+				res.Fails = r.fails
+				return finish(), res
+			}
+			tot, ok := settledTotals(ndm)
+			if ok {
+				if prevTotals != nil {
+					for key, v := range prevTotals {
+						if w, have := tot[key]; !have {
+							r.failf("[C05] %s is gone after restart cycle %d (nothing was deleted)", key, k+1)
+						} else if w != v {
+							r.failf("[C05] %s holds %d messages after restart cycle %d and held %d after the cycle before; nobody published or consumed in between", key, w, k+1, v)
+						}
+					}
+				}
+				prevTotals = tot
+			}
+			if err := ndm.stop(60 * time.Second); err != nil {
+				r.failf("[C05] graceful shutdown of an idle restart cycle: %v", err)
+				res.Fails = r.fails
+				return finish(), res
+			}
+		}
+	}
 	// ---- second lifetime
 	nd2, err := startNode(dir, opts)
 	if err != nil {
@@ -300,6 +334,15 @@ func restartScenario(sc Scenario, dir string) ([]verif.Event, *RunResult) {
 			}
 			if cs.Paused != pausedC[t+"/"+c] {
 				r.failf("[C05] channel %s/%s paused=%v after restart, was %v", t, c, cs.Paused, pausedC[t+"/"+c])
+			}
+		}
+	}
+	if prevTotals != nil {
+		if tot, ok := settledTotals(nd2); ok {
+			for key, v := range prevTotals {
+				if w, have := tot[key]; have && w != v {
+					r.failf("[C05] %s holds %d messages after the last restart and held %d after the cycle before; nobody published or consumed in between", key, w, v)
+				}
 			}
 		}
 	}
@@ -385,6 +428,41 @@ func restartScenario(sc Scenario, dir string) ([]verif.Event, *RunResult) {
 	}
 	res.Events = len(evs)
 	return evs, res
+}
+
+// settledTotals: messages held per channel ("t/c": topic backlog + channel backlog, in flight, deferred) and per
+// channel-less topic ("t/"), read until two successive /stats agree (the topic pump may still be handing its backlog on)
+func settledTotals(nd *Node) (map[string]int64, bool) {
+	var last map[string]int64
+	for i := 0; i < 100; i++ {
+		st, _, err := nd.stats("")
+		if err != nil {
+			return nil, false
+		}
+		cur := map[string]int64{}
+		for _, ts := range st.Topics {
+			if len(ts.Channels) == 0 {
+				cur[ts.Name+"/"] = ts.Depth
+			}
+			for _, cs := range ts.Channels {
+				cur[ts.Name+"/"+cs.Name] = ts.Depth + cs.Depth + cs.InFlightCount + cs.DeferredCount
+			}
+		}
+		if last != nil && len(last) == len(cur) {
+			same := true
+			for k, v := range cur {
+				if last[k] != v {
+					same = false
+				}
+			}
+			if same {
+				return cur, true
+			}
+		}
+		last = cur
+		time.Sleep(30 * time.Millisecond)
+	}
+	return nil, false
 }
 
 // restartLedger: what was acknowledged and not finished at the shutdown request must be delivered after the
